@@ -67,6 +67,8 @@ def run(ctx):
     r1.check(ok, f"{m.rel}:Scheduler._resolve_job_main_thread:no-prov-hash", "without provenance the call hash is not computed with the same function over the same four quantities", m.rel, rs.lineno)
     rv = [c for c in calls_in(rs, shallow=True) if call_name(c) == "self.backend.record_value"]
     ok = any(isinstance(n, ast.Assign) and src(n.targets[0]) == "result_hash" and src(n.value) == "self.backend.record_value(result)" for n in ast.walk(rs))
+    # or handed over directly: record_call_node(..., result_hash=self.backend.record_value(result), ...)
+    ok = ok or any(call_name(c) == "self.backend.record_call_node" and kwarg(c, "result_hash") is not None and src(kwarg(c, "result_hash")) == "self.backend.record_value(result)" for c in calls_in(rs, shallow=True))
     r1.check(ok, f"{m.rel}:Scheduler._resolve_job_main_thread:result_hash", "the result hash given to record_call_node is not the hash under which the result value was recorded", m.rel, rs.lineno)
 
     r2 = ctx.rule("C20.2", "the CallNode tag occurs at exactly one hash site", floor=1)
